@@ -128,7 +128,8 @@ func timeoutFor(tier string) int {
 func (eng *Engine) packagesFor(prop string) []string {
 	set := map[string]bool{}
 	add := func(c *Contract) {
-		if prop == "" || hasProp(c.Props, prop) {
+		// every repository package that carries a contract file is loaded: callees are then available with their bodies
+		if true {
 			if c.Pkg != "" && !strings.Contains(c.Pkg, ".") {
 				if _, err := os.Stat(filepath.Join(eng.repo, c.Pkg)); err == nil {
 					set["./"+c.Pkg] = true
